@@ -49,6 +49,16 @@ def role_functions(program):
         pass
     except Exception:
         pass
+    try:
+        from .c12 import tag_derivation_helper
+        fm = program.module("factory")
+        fc = fm.classes.get("FiltersSet") if fm is not None else None
+        if fc is not None:
+            h = tag_derivation_helper(fc, fm)
+            if h is not None:
+                roles.add(id(h.node))
+    except Exception:
+        pass
     return roles
 
 
